@@ -370,6 +370,11 @@ func genDgebrd(g *vlib.G) {
 			}
 		}
 	}
+	for _, exp := range ladder(g, -240, -200, 200, 240) {
+		for _, sh := range [][2]int{{3, 3}, {5, 3}, {3, 5}, {6, 6}} {
+			plan = append(plan, cfg{sh[0], sh[1], profiles[0], []family{scaledFam(genFamilies[0], exp), scaledFam(genFamilies[7], exp)}})
+		}
+	}
 	shapes := [][2]int{{1, 1}, {2, 2}, {5, 5}, {33, 33}, {40, 33}, {33, 40}}
 	if lvl(g) >= 1 {
 		shapes = append(shapes, [2]int{129, 129}, [2]int{150, 130}, [2]int{130, 150})
